@@ -93,14 +93,14 @@ impl expr::Expr
 				let lhs_size = lhs.get_static_size(provider)?;
 				let rhs_size = rhs.get_static_size(provider)?;
 
-				Some(lhs_size + rhs_size)
+				lhs_size.checked_add(rhs_size)
 			}
 
 			expr::Expr::BinaryOp(..) => None,
 			
 			expr::Expr::Slice(_, _, left_expr, right_expr, _) =>
 			{
-				let left = left_expr.try_eval_usize()? + 1;
+				let left = left_expr.try_eval_usize()?.checked_add(1)?;
 				let right = right_expr.try_eval_usize()?;
 
 				if right > left
